@@ -31,7 +31,7 @@ type BuilderPlan struct {
 	// Dirty words of capacity, all of them non-zero (the type's fields are
 	// exported; an array is recycled this way). A word the Builder grows into
 	// must still start as zero.
-	Dirty int `json:"dirty,omitempty"`
+	Dirty     int    `json:"dirty,omitempty"`
 	Ops       []BOp  `json:"ops"`
 	ProbeSeed uint64 `json:"probe_seed"`
 }
@@ -302,6 +302,32 @@ func (Builder) Execute(pl engine.Plan, c *engine.RunCtx) *engine.Failure {
 	var shifted []int32
 	var segs [][]int32
 	var sizes []int32
+	// results of EARLIER Of / OfMany calls that the caller still holds: a value
+	// once returned must stay what it was whatever is called afterwards
+	type keptWords struct {
+		what string
+		at   int
+		got  []uint64
+		was  []uint64
+	}
+	var kept []keptWords
+	keep := func(what string, w []uint64) {
+		if len(w) > 1<<16 {
+			return
+		}
+		if len(kept) >= 6 {
+			kept = kept[1:]
+		}
+		kept = append(kept, keptWords{what, step, w, append([]uint64(nil), w...)})
+	}
+	checkKept := func() *engine.Failure {
+		for _, k := range kept {
+			if !wordsEqual(k.got, k.was) {
+				return engine.Failf("C12.retain", step, "the bitmap %s returned at step %d (still held by the caller) has changed after later calls", k.what, k.at)
+			}
+		}
+		return nil
+	}
 
 	for oi, op := range p.Ops {
 		step = oi + 1
@@ -402,10 +428,12 @@ func (Builder) Execute(pl engine.Plan, c *engine.RunCtx) *engine.Failure {
 				fsegs[i] = flat[at : at+len(sg)]
 				at += len(sg)
 			}
+			keep("Of", ofw)
 			for rep := 0; rep < 2; rep++ {
 				if !guard(func() string { return "OfMany" }, func() { omw = bitmap.OfMany(fsegs, sizes) }) {
 					return fail
 				}
+				keep("OfMany", omw)
 				if !wordsEqual(omw, ofw) {
 					return engine.Failf("C12.ofmany_eq_of", step, "after op %d: OfMany(segments, sizes) (%d words, call #%d with the same arguments) differs from Of(shifted positions, total) (%d words)", oi, len(omw), rep+1, len(ofw))
 				}
@@ -448,6 +476,9 @@ func (Builder) Execute(pl engine.Plan, c *engine.RunCtx) *engine.Failure {
 				}
 				st.Inc("probe.C12.ofmany_with_positions_ge_size")
 			}
+		}
+		if f := checkKept(); f != nil {
+			return f
 		}
 		st.State(engine.HashU64(0, uint64(offset), uint64(len(b.Words)), uint64(len(model)), uint64(maxbit)))
 		// ---- probes on the state reached
